@@ -197,7 +197,8 @@ def execute(case):
                 if isinstance(e, roar.BeartypeCallHintViolation):
                     cul = e.culprits
                     x = o['x']
-                    ok = len(cul) >= 1 and (cul[0] is x or _same_repr(cul[0], x))
+                    # the rejected object itself; its repr() only where it cannot be weakly referenced (it is still alive here)
+                    ok = len(cul) >= 1 and (cul[0] is x or (not _weakrefable(x) and _same_repr(cul[0], x)))
                     if len(cul) >= 1 and isinstance(cul[0], str) and cul[0] is not x:
                         probes['nonweakrefable_culprit'] += 1
                     if not ok:
@@ -215,6 +216,17 @@ def execute(case):
     if vs == {'accept'}:
         probes['all_accept'] = 1
     return _out(case, probes, viol, nontrivial=(len(vs) > 1 or probes['rejections_explained'] > 0 or probes['warning_mode_rejections'] > 0))
+
+
+def _weakrefable(x):
+    import weakref
+    if x is None:
+        return True         # (None is stored specially and comes back as None)
+    try:
+        weakref.ref(x)
+        return True
+    except TypeError:
+        return False
 
 
 def _same_repr(c, x):
